@@ -220,7 +220,13 @@ func (c *diskCache) containsWorker() {
 			}
 		}
 
-		ok, _ = c.proxy.Contains(req.ctx, cache.CAS, (*req.digest).Hash, (*req.digest).SizeBytes)
+		var foundSize int64
+		ok, foundSize = c.proxy.Contains(req.ctx, cache.CAS, (*req.digest).Hash, (*req.digest).SizeBytes)
+		if ok && isSizeMismatch((*req.digest).SizeBytes, foundSize) {
+			// Same rule as diskCache.Contains: the backend has something
+			// under this hash, but not a blob of the requested size.
+			ok = false
+		}
 		if ok {
 			c.accessLogger.Printf("GRPC CAS HEAD %s OK", (*req.digest).Hash)
 			// The blob exists on the proxy, remove it from the
